@@ -6,45 +6,55 @@ import os
 ROOT = os.path.normpath(os.path.join(os.path.dirname(os.path.abspath(__file__)), ".."))
 
 LEVEL = {
-    "C01": ("Theorems (all inputs): raw-day gate, field-check order of try_from_ymd for all i32/u32 arguments, is_valid ⇔ try_from_ymd ok, "
-            "weekday = (d+4) mod 7 with day 0 a Thursday and +1 per day, Gregorian month lengths and leap rule. "
-            "Tie: exhaustive — all 3,652,059 day numbers through extract/day_of_week/try_from_days and the (year −1..10001) × month × day grid through try_from_ymd/is_valid."),
-    "C02": ("One theorem per value-returning operation (≈45 rows): Valid args → op = ok v → Valid v, most by the gate lemma, the rest cited from C07/C08/C12/C13/C14/C16. "
+    "C01": ("Theorems (all inputs, complete): raw-day gate; field-check order of try_from_ymd for all i32/u32 arguments and accepted ⇔ real date in years 1..9999; "
+            "extract∘try_from_ymd = id and try_from_ymd∘extract = id on the whole range (400-year periodicity + one period by kernel evaluation); extract(j+1) = calendar successor of extract(j); "
+            "weekday = (d+4) mod 7 with day 0 a Thursday; order of day numbers = lexicographic order of triples; month lengths and leap rule. "
+            "Tie: exhaustive — all 3,652,059 day numbers through extract/day_of_week/try_from_days and the (year −1..10001) × month × day grid through try_from_ymd/is_valid; crate vs independent Lean Spec (`--spec`)."),
+    "C02": ("One theorem per value-returning operation (≈60 rows): Valid args → op = ok v → Valid v — constructors, linear and month arithmetic, f64 scaling and add_days, conversions, all 12 truncation/rounding units on Date/Timestamp/OracleDate, last-day-of-month, "
+            "and `parse` for ANY picture, text and clock (Props/C02Parse: parse_valid, deStr_valid). "
             "Tie: every value-returning op × boundary/random pools, both overflow modes, with a range oracle on every crate result."),
-    "C03": ("Theorems: try_new never panics and fails only with InvalidFormat (all byte strings, induction); checked constructors, linear arithmetic, f64 scaling, add_days and binary deserialisation never produce Panic for any argument. "
-            "Tie: every op × pools, generated + byte-random pictures and inputs, all pictures up to length 3/4, blank runs to 1000, on harness builds with overflow checks on AND off; any `panic` from the crate is a violation."),
-    "C04": ("Theorems: every string table the formatter indexes (regenerated from the Rust source each run) equals its arithmetic meaning — two-digit fields, 3-digit day of year, week-of-month/year = ⌊(n−1)/7⌋+1, 72 month and 42 weekday names in six styles, AM/PM texts; write_u32 = zero-padded decimal for every u32 and width; cumulative-day table = prefix sums. "
-            "Tie: all dates × 22 date tokens, all seconds × time tokens, all 10^6 µs × FF..FF9, random composite and inapplicable pictures."),
-    "C05": ("Theorems for every input text/state/clock: W/WW, duplicate codes, HH24-vs-meridian and inapplicable codes are errors; leftover input is an error; 12h+meridian arithmetic in both field orders; weekday-number parser; day-of-year decoding correct for all 365/366 ordinals; Time conversion with µs carry and no normalisation. "
-            "Tie: year × day-of-year grid, 12h/24h notation for every hour, 40k generated lenient/perturbed spellings, malformed stream."),
-    "C06": ("Theorems: a rendered numeric field is read back as the same number for every u32 value and width (digit loop ∘ digit fold = id, leading zeros ignored); kernel-checked format∘parse∘format round trips at every range boundary through the serde pictures and permuted name-bearing pictures. The induction over all lossless pictures is not finished (partial). "
-            "Tie: F.roundtrip (format, parse with the same Formatter, re-format) on all dates × 7 pictures, all seconds × 5 pictures, 40k generated lossless pictures for six types."),
-    "C07": ("Theorems (omega): extract∘new = id and new∘extract = id for every day number and µs (also before 1970), date()/time() = extract, validity both ways, lexicographic order and injectivity; try_from_hms accepts exactly h<24,m<60,s<60,µs<10^6 with the first failing field reported, extract/from_hms mutually inverse, accessors = fields. Hash: partial — SipHash is not modelled; hash(a)=hash(b) ⇔ a=b is sampled on the crate. "
-            "Tie: all dates × 5 critical times through new/extract/accessors, all 86,400 seconds × 3 µs and all 10^6 µs at 4 seconds, the hms grid."),
-    "C08": ("Theorems for all valid receivers and ALL i32/i64 operands: each add/sub = exact integer result if in range else the range error (checked_add None ⇒ out of range), infallible differences in range without a gate, no i64 overflow in add_time/sub_time, x+i−i=x, (x+i)−x=i, a−b=−(b−a). The f64 day offset is modelled by the soft-float (rounding statement: partial, see DESIGN §7). "
-            "Tie: 26 linear ops × boundary pools crossed + random, both overflow modes; all dates ± k days."),
-    "C09": ("Theorems: the two truncating-division branches of the month carry = floor division of 12·y+(m−1)+k for every integer k; result month in 1..12; no i32 overflow for any offset in the interval range; sub = add∘neg; time of day carried unchanged on timestamps; carry is invertible. (last_day_of_month and the InvalidDate/DateOutOfRange split depend on the calendar layer: partial.) "
+    "C03": ("Theorems: try_new never panics and fails only with InvalidFormat (all byte strings); `parse` never panics for ANY type, picture bytes, text bytes and clock; `format` never panics for EVERY valid value of every type and ANY picture bytes (Props/C03Format); "
+            "checked constructors, linear arithmetic, f64 scaling, add_days, binary and human-readable (de)serialisation never produce Panic. Trunc/round/month arithmetic no-panic follows from the closed forms of C09–C11 for valid receivers. "
+            "Tie: every op × pools, generated + byte-random pictures and inputs, all pictures up to length 3/4, blank runs to 1000, long pictures, on harness builds with overflow checks on AND off; any `panic` from the crate is a violation."),
+    "C04": ("Theorems (complete on the model): every table the formatter indexes (regenerated from the Rust source each run) equals its arithmetic meaning; write_u32 = zero-padded decimal for every u32 and width; "
+            "fraction = ⌊µs / 10^(6−p)⌋ (or ·10^(p−6)) through the soft-float for all µs and p ≤ 9; `format = Spec.render` field by field and END TO END from the picture text for every valid value of all six types and EVERY picture (error iff the picture does not compile or a token does not apply). "
+            "Tie: all dates × 22 date tokens, all seconds × time tokens, all 10^6 µs × FF..FF9, random composite/long/inapplicable pictures; crate vs independent Lean renderer (`--spec`)."),
+    "C05": ("Theorems for every input text/state/clock: W/WW, duplicate codes, HH24-vs-meridian and inapplicable codes are errors; leftover input is an error; 12h+meridian arithmetic in both field orders; weekday-number parser; day-of-year accepted exactly for 1..365/366 and decoded correctly for all ordinals; "
+            "weekday cross-check; final conversions accept exactly real dates / clock ranges with the documented error kinds and µs carry (no normalisation); per-token reading lemmas for any digit run (unpadded, '+', blanks). "
+            "The single general 'denoted value' theorem over all readings is partial (see DESIGN §13.4). "
+            "Tie: year × day-of-year grid, 12h/24h notation for every hour, 40k generated lenient/perturbed spellings with a Python-computed expected value, malformed stream."),
+    "C06": ("Theorems: a rendered numeric field is read back as the same number for every u32 value and width; FULL round trip format→parse = id for EVERY valid value of every type through the six serde pictures (Props/C06Serde); kernel-checked round trips at range boundaries through permuted name-bearing pictures. "
+            "The induction over the whole class of lossless pictures is partial. "
+            "Tie: F.roundtrip (format, parse with the same Formatter, re-format) on all dates × 7 pictures, all seconds × 5 pictures, 40k generated lossless pictures (any field order, separators, name styles, extra weekday/day-of-year) for six types."),
+    "C07": ("Theorems (complete except hashing): extract∘new = id and new∘extract = id for every day number and µs (also before 1970), date()/time() = extract, validity both ways, lexicographic order and injectivity; try_from_hms accepts exactly h<24,m<60,s<60,µs<10^6 with the first failing field reported, extract/from_hms mutually inverse, accessors = fields, second() = s + µs/10^6 correctly rounded. Hash: SipHash is not modelled; hash(a)=hash(b) ⇔ a=b is sampled on the crate. "
+            "Tie: all dates × 5 critical times through new/extract/accessors, all 86,400 seconds × 3 µs and all 10^6 µs at 4 seconds, dense µs sweeps of second(), the hms grid."),
+    "C08": ("Theorems for all valid receivers and ALL i32/i64 operands: each add/sub = exact integer result if in range else the range error, infallible differences in range, no i64 overflow in add_time/sub_time, x+i−i=x, (x+i)−x=i, a−b=−(b−a). "
+            "f64 day offsets (soft-float): whole days and every offset whose µs count is exactly representable are added exactly with the exact range gate; classification of NaN/∞/huge; the general rounding bound is partial (see DESIGN §13.4). "
+            "Tie: 26 linear ops × boundary pools crossed + random, both overflow modes; all dates ± k days; 20k fractional offsets incl. ties."),
+    "C09": ("Theorems (complete): add-months = same day and time in the month k away with year/month carried by floor division, for EVERY integer k; DateOutOfRange ⇔ the year leaves 1..9999, InvalidDate ⇔ that month has no such day (never clamps); no i32 overflow; sub = add∘neg; time of day unchanged; last_day_of_month = last day (28/29/30/31) of the value's own month, time unchanged. "
             "Tie: all dates × 15–81 month offsets incl. interval limits, all dates for last_day_of_month, timestamps × critical times."),
-    "C10": ("Theorems: day/hour/minute truncation of every timestamp is the greatest boundary ≤ x (independent predicate), ISO-week and Sunday-week truncation of dates = greatest Monday/Sunday ≤ x, Sunday-week fails exactly for 0001-01-01..06; uniqueness ⇒ idempotent and monotone. Century/year/quarter/month/ISO-year/anchored weeks: partial (calendar layer). "
-            "Tie: exhaustive — all dates × 12 units on Date, all dates × critical times on Timestamp/OracleDate, every second of 7 sampled days."),
-    "C11": ("Theorems: day rounding of every valid timestamp in closed form (next day exactly from 12:00, error exactly when that is 10000-01-01), result adjacent and fixed on boundaries; ISO-week rounding of dates (forward from the fifth day). Counterexample theorems for the two known findings (round_century on years ≡ 0 mod 100, Sunday week before 0001-01-04). Other units: partial. "
-            "Tie: as C10 for round_* (exhaustive on dates)."),
-    "C12": ("Theorems (omega): add/sub_interval_dt = (t ± i) mod 24h for every valid time and EVERY integer interval, result valid, add then sub cancels, whole days are neutral, sub_time exact and a valid interval, Time::from(interval) = |i| mod 24h. "
+    "C10": ("Theorems (complete): for all 12 units on Date, Timestamp and OracleDate the crate code (six generated week tables, Julian arithmetic) = closed form = GREATEST unit boundary ≤ x against independent boundary predicates; hence idempotent, monotone, never forward; fails exactly when the boundary precedes 0001-01-01 (Sunday week of 0001-01-01..06 only). "
+            "Tie: exhaustive — all dates × 12 units on Date, all dates × critical times on Timestamp/OracleDate, every second of sampled days; crate vs independent Lean Spec (`--spec`)."),
+    "C11": ("Theorems (complete modulo the recorded finding D1): for all 12 units on Date and Timestamp rounding = truncation or the next boundary, boundaries fixed, later boundary chosen exactly from the documented midpoint, monotone except ISO year, fails ⇔ chosen boundary after the maximum; Oracle = timestamp then floor. "
+            "round_century on years ≡ 0 mod 100 is excluded by hypothesis and characterised exactly (known finding D1); Sunday-week rounding before 0001-01-04 is stated as a counterexample theorem (D9). "
+            "Tie: as C10 for round_* (exhaustive on dates); crate vs Spec."),
+    "C12": ("Theorems (complete, omega): add/sub_interval_dt = (t ± i) mod 24h for every valid time and EVERY integer interval, result valid, add then sub cancels, whole days neutral, sub_time exact and a valid interval, Time::from(interval) = |i| mod 24h, mixed comparisons = comparison of µs counts. "
             "Tie: all 86,400 seconds × 12+ boundary/random intervals, pools crossed for the mixed comparisons."),
-    "C13": ("Theorems (omega, all 4,272,000,001 year-month values by proof): sign/field decomposition with ranges and uniqueness, constructors = classify for all u32 tuples with error order, is_valid ⇔, extract∘ctor = id, negation involutive and range-preserving, signed accessors = sign × field. "
-            "Tie: year-month values strided + 300k contiguous at the ends and zero, day-time every second within ±2 days and powers of ten, constructor grids."),
-    "C14": ("Theorems: complete classification of mul_f64/div_f64 for all 2^64 scalars (zero divisor first, NaN, ±∞, finite-in-range, finite-out-of-range incl. saturated casts), results in range, truncation toward zero by definition of the cast. Numeric layer (2^-52 bound, exact integer factors, sign symmetry): partial — soft-float lemmas in progress. "
+    "C13": ("Theorems (complete): sign/field decomposition with ranges and uniqueness, constructors = classify for all u32 tuples with error order, is_valid ⇔, extract∘ctor = id, negation involutive and range-preserving, signed accessors = sign × field, second() correctly rounded. "
+            "Tie: year-month values strided + 300k contiguous at the ends and zero, day-time every second within ±2 days and powers of ten, dense µs sweeps, constructor grids."),
+    "C14": ("Theorems: complete classification of mul_f64/div_f64 for all 2^64 scalars; results in range; cast truncates toward zero and saturates; exact products for integer factors below 2^53; sign symmetry (−x)·k = −(x·k) = x·(−k) through rounding and cast; each rounding within half an ulp and relative error ≤ u/(1+u), u = 2^-53, in the normal range. "
+            "The composed two-rounding 2^-52 statement over ℚ is partial (see DESIGN §13.4). "
             "Tie: scaling ops × intervals × 100+ special/random doubles; the soft-float itself diffed against hardware on 20k+ operations per run."),
-    "C15": ("Theorems: for EVERY raw integer binary deserialisation yields a valid value equal to the raw count or an error; binary round trip for every valid value; never panics. Human-readable round trip: kernel-checked at range boundaries (C06), general statement partial. "
-            "Tie: all dates and all seconds through serde_json + bincode serialisation, raw counts at limits ±2 and integer extremes, perturbed strings, short/ill-typed payloads (harness-only)."),
-    "C16": ("Theorems (omega): validity ⇔ in range ∧ whole second; From<Timestamp> = ⌊ts/10^6⌋·10^6 (greatest whole second ≤ ts, also before 1970), new drops the sub-second part, interval arithmetic = timestamp result floored, integer rounding of add_days is within half a second with ties away from zero, whatever add_days returns is valid, MAX = 9999-12-31 23:59:59. "
+    "C15": ("Theorems (complete on the model): binary — every raw integer decodes to a valid value equal to the raw count or an error; round trip for every valid value. Human-readable — for EVERY valid value of every type serialisation succeeds within the 32-byte buffer and deserialising the text returns the value under any clock; ANY accepted text decodes to a value in range (whole seconds for the Oracle date); never panics. serde_json/bincode transport is exercised, not modelled. "
+            "Tie: all dates and all seconds through serde_json + bincode, raw counts at limits ±2 and integer extremes, perturbed strings, short/ill-typed payloads (harness-only)."),
+    "C16": ("Theorems (complete except the general f64 bound): validity ⇔ in range ∧ whole second; From<Timestamp> = ⌊ts/10^6⌋·10^6 (greatest whole second ≤ ts, also before 1970); new drops the sub-second part; interval arithmetic = timestamp result floored; add_days = timestamp add_days then nearest second (ties away from zero) and always valid; sub_date = correctly rounded quotient; parse/trunc/round results valid (C02). "
             "Tie: all dates × 3 times × 5 sub-second parts for conversions, every OD op × pools, 20k fractional day offsets incl. half-second ties."),
-    "C17": ("Theorems: Timestamp truncation at a date's midnight = Date truncation at midnight for all 12 units (errors included), Oracle ops = timestamp op then floor, last_day/add months agree through Date and Timestamp, midnight is an order embedding (mixed comparisons). Rounding agreement: partial. "
-            "Tie: all dates × 12 units × trunc/round through all three types, mixed comparisons and shared ops × pools."),
-    "C18": ("Theorems (clock is a parameter): now()/TryFrom<Time> = the clock's fields; YYYY and interval year fields never read the clock; Y/YYY completion = year − year mod 10^n + digits; YY rule with digits-only counting; default day 1 / time 0. Independence for complete pictures: instances kernel-checked, general theorem partial. "
+    "C17": ("Theorems (complete on the model): truncation AND rounding through Timestamp at a date's midnight = Date truncation/rounding at midnight for all 12 units (errors included); Oracle ops = timestamp op then floor; last_day/add-months agree through Date and Timestamp; midnight is an order embedding (all mixed comparisons, both argument orders). "
+            "Tie: all dates × 12 units × trunc/round through all three types, mixed comparisons and shared ops (incl. differences) × pools."),
+    "C18": ("Theorems (clock is a parameter): now()/TryFrom<Time> = the clock's fields; for ANY picture without 1–3-digit year fields whose text supplies year and month, `parse` is the same under every two clocks (general theorem); Y/YYY completion = year − year mod 10^n + digits; YY rule with digits-only counting; defaults day 1 / time 0 / 12 for HH12. "
             "Tie: clock hook — every 8th..204th local date as 'today' × 36 (type,text,picture) cases, now/from_time under pool clocks, 20k generated texts under random clocks with the clock-read counter compared."),
-    "C19": ("Theorems so far: blank tokens render n blanks, MAX_FIELDS = 36, lexer = maximal munch on all one-byte pictures; the general theorem lexer = generic maximal-munch tokenizer over the documented table is stated (Props/C19.full.txt) and being proved. "
-            "Tie: all 2.6M pictures up to length 4 (thorough: 5) over a 40-symbol alphabet with the compiled field list compared (stronger than probe text), random token sequences, blank runs to 600, probe-timestamp text."),
+    "C19": ("Theorems (complete): Formatter::try_new = generic maximal-munch tokenizer over the documented 41-entry token table for EVERY byte string (same accept/reject, fields, styles, blank-run lengths; single FF0 exception where both reject one step apart); ≤ 36 tokens; only error InvalidFormat; blank run of n renders n blanks. "
+            "Tie: all 2.6M pictures up to length 4 (thorough: 5) over a 40-symbol alphabet with the compiled field list compared, random token sequences, blank runs to 600; crate vs independent Lean munch (`--spec`)."),
 }
 
 NOTE = ("Trusted: Lean 4.33 kernel; axioms ⊆ {propext, Classical.choice, Quot.sound} (audited per theorem on every run, no native_decide/bv_decide/sorry); "
